@@ -1,5 +1,6 @@
 // C05: changing representation (storage order, interpolator) preserves the field; the source is unchanged
 #include "vf_probe.hpp"
+#include <ostream>
 #include <covfie/core/backend/primitive/array.hpp>
 #include <covfie/core/backend/transformer/affine.hpp>
 #include <covfie/core/backend/transformer/hilbert.hpp>
@@ -87,6 +88,19 @@ template <int FROM, int TO, size_t N, class V> static void conv_body(const utili
         for (size_t j = 0; j < M; j++) vf_assert(vf::same_bits<S>(vt.at(q)[j], before[j]), 2);     // same value at every lattice coordinate
         for (size_t j = 0; j < M; j++) vf_assert(vf::same_bits<S>(vf_.at(p)[j], before[j]), 3);    // source unchanged
         vf_assert(t.backend().get_backend().m_ptr.get() != f.backend().get_backend().m_ptr.get(), 4);   // own storage
+        {
+            // the storage records as many cells as the layout needs: copies, dumps and the debug bounds assertion trust it
+            size_t need = 1, mx = 0;
+            for (size_t k = 0; k < N; k++) { need *= s[k]; mx = s[k] > mx ? s[k] : mx; }
+            if constexpr (TO != 0) need = utility::ipow(utility::round_pow2(mx), N);
+            vf_assert(t.backend().get_backend().get_configuration()[0] == need, 8);
+            // the converted field serialises without reading uninitialised cells (padding of the curve layouts included)
+            std::ostream * os = vf_ostream();
+            t.dump(*os);
+            field<BT> copy(t);                                 // and a copy of it is a complete copy
+            typename field<BT>::view_t vc(copy);
+            for (size_t j = 0; j < M; j++) vf_assert(vf::same_bits<S>(vc.at(q)[j], before[j]), 9);
+        }
         field<BF> back(t);                                 // converting back reproduces the original
         typename field<BF>::view_t vb(back);
         for (size_t j = 0; j < M; j++) vf_assert(vf::same_bits<S>(vb.at(p)[j], before[j]), 5);
